@@ -74,6 +74,7 @@ pub enum NameArg {
     PlusLabel,
     Max255,
     Upper,
+    Reshaped, // same wire length as the current name, first two labels merged into one
     Bad64,
     BadUnterminated,
     BadPointer,
@@ -84,7 +85,7 @@ pub enum NameArg {
     Huge, // valid 255-byte name; fails only when the packet would exceed 65535 bytes
 }
 
-pub const NAMES_OK: [NameArg; 7] = [NameArg::Root, NameArg::X, NameArg::YyX, NameArg::SameLen, NameArg::PlusLabel, NameArg::Max255, NameArg::Upper];
+pub const NAMES_OK: [NameArg; 8] = [NameArg::Root, NameArg::X, NameArg::YyX, NameArg::SameLen, NameArg::PlusLabel, NameArg::Max255, NameArg::Upper, NameArg::Reshaped];
 pub const NAMES_BAD: [NameArg; 7] = [NameArg::Bad64, NameArg::BadUnterminated, NameArg::BadPointer, NameArg::Empty, NameArg::BadCtrl, NameArg::BadDot, NameArg::BadBackslash];
 
 pub fn name_arg(a: NameArg, current: &[u8]) -> Vec<u8> {
@@ -115,6 +116,22 @@ pub fn name_arg(a: NameArg, current: &[u8]) -> Vec<u8> {
         }
         NameArg::Max255 | NameArg::Huge => name_of_wire_len(255),
         NameArg::Upper => nm("UP.x"),
+        NameArg::Reshaped => {
+            // [l1 ..][l2 ..] rest  ->  [l1+l2+1 .. 'j' ..] rest : same length, other label boundaries
+            let n = current.to_vec();
+            if n.len() < 2 || n[0] == 0 {
+                return n;
+            }
+            let l1 = n[0] as usize;
+            let l2 = *n.get(1 + l1).unwrap_or(&0) as usize;
+            if l2 == 0 || l1 + l2 + 1 > 63 {
+                return n;
+            }
+            let mut m = n.clone();
+            m[0] = (l1 + l2 + 1) as u8;
+            m[1 + l1] = b'j';
+            m
+        }
         NameArg::Bad64 => {
             let mut n = vec![64u8];
             n.extend(std::iter::repeat(b'x').take(64));
